@@ -489,7 +489,7 @@ def read_oracle(chk, judges, twin, t, rng, store, i, every_style=False, kinds=No
                 # on every document of the writing oracle and, for the Coq validators, in the correspondence); the real
                 # validators - by far the slowest step - judge every plain document and every third variant document
                 chk._c05_n = getattr(chk, "_c05_n", 0) + 1
-                real = vsig is None or chk._c05_n % 3 == 0
+                real = vsig is None or chk._c05_n % (6 if chk.tier == "quick" else 3) == 0
                 if fmt == "json":
                     d = iw.json_env(canons)
                     data = json.dumps(d)
@@ -672,7 +672,7 @@ def write_oracle(chk, judges, twin, store, i, strings, t=None):
 def run(chk):
     rng = chk.rng
     quick = chk.tier == "quick"
-    n_store, n_jcases, n_xcases, n_read = (120, 220, 140, 24) if quick else (2400, 1800, 900, 700)
+    n_store, n_jcases, n_xcases, n_read = (80, 160, 100, 16) if quick else (2400, 1800, 900, 700)
     gen_ok = regenerate(chk)
     if gen_ok:
         ok = chk.theorems("props.C05", THEOREMS, VO)
@@ -816,7 +816,7 @@ def run(chk):
         chk.count("tieC:json:" + ("valid" if real else "invalid"))
         chk.count("tieC:json:mut:" + desc.split("@")[0])
     eterms = []
-    for i in range(24 if quick else 200):
+    for i in range(16 if quick else 200):
         g = c05_spec.SpecGen(rng, strings="plain", depth=2)
         try:
             store = g.store(rng.randint(0, 3))
